@@ -68,6 +68,16 @@ var c15Datasets = []c15Dataset{
 		},
 		Table: ".fullname", Row: ".config", Col: ".file",
 	},
+	{
+		// (vi) cells merging results that differ in TWO unprojected keys, three distinct combinations of them (the
+		// warning names both keys; the keys of a cell are collected from a map)
+		Name: "residue-two-keys",
+		Files: []string{
+			"goos: l\na: 1\nb: 1\nBenchmarkA 1 100 ns/op\na: 2\nBenchmarkA 1 101 ns/op\na: 1\nb: 2\nBenchmarkA 1 102 ns/op\nBenchmarkB 1 7 ns/op\n",
+			"goos: l\na: 1\nb: 2\nBenchmarkA 1 110 ns/op\nb: 1\nBenchmarkA 1 111 ns/op\na: 3\nBenchmarkA 1 112 ns/op\n",
+		},
+		Table: "goos", Row: ".fullname", Col: ".file",
+	},
 }
 
 // c15LargeDatasets is a ladder of cell sizes around powers of two (2^10 and
